@@ -587,6 +587,32 @@ def check(run):
             i = impl.add(G.impl_line([c])); m = mod.add(" ".join(t))
             c["tol"] = 1e-7
             jobs.append(("tie", [c], i, m))
+    # pair lists of selfCoordNum and of coordNum with group2CenterOnly: built at step 0, used (stale) after the atoms moved
+    for k in range(10 * scale):
+        comp = "selfCoordNum" if k % 2 == 0 else "coordNum"
+        c = gen_until(r, comp, generic=(k % 3 == 1), dup=0.0)
+        if c is None:
+            continue
+        c["params"]["tol"] = r.choice([0.001, 0.0078125, 0.05, 0.2])
+        if comp == "coordNum":
+            c["params"]["center"] = 1
+        if not well_conditioned(c):
+            continue
+        amp = r.choice([0.0, 0.3, 1.5])
+        for _ in range(30):
+            moved = [[a[0], a[1]] + [x + (r.gauss(0, amp) if amp else 0.0) for x in a[2:5]] for a in c["atoms"]]
+            c2 = dict(c); c2["atoms"] = moved
+            if well_conditioned(c2):
+                break
+        else:
+            continue
+        i0 = impl.add(G.impl_line([c])); i1 = impl.add(G.pos_line(moved))
+        t1 = G.model_tokens(c); t2 = G.model_tokens(c2); gpos = t1.index("G")
+        if comp == "selfCoordNum":
+            m = mod.add(" ".join(["selfCoordNumPL"] + t1[1:] + t2[t2.index("G"):]))
+        else:
+            m = mod.add(" ".join(["coordNumCenterPL"] + t1[1:gpos - 1] + t1[gpos:] + t2[t2.index("G"):]))
+        jobs.append(("pairlist", {"case": c, "moved": moved, "i": [i0, i1], "amp": amp}, i1, m))
     # pair list over steps AND run boundaries: runs of one session starting at arbitrary absolute steps, coordinates replaced
     # between the runs (far apart in one run, in contact in the next), list frequency 2..5
     for k in range(8 * scale):
@@ -835,7 +861,7 @@ def check(run):
         elif kind == "pairlist":
             a = parse_impl(iout[i]); b = parse_model(mout[m]); a0 = parse_impl(iout[obj["i"][0]])
             run.count("pairlist/" + case_key(obj["case"]) + "/%g" % obj["amp"], True)
-            run.dist("tie:coordNum:pairlist" + (":moved" if obj["amp"] else ":same-positions"))
+            run.dist("tie:%s:pairlist" % obj["case"]["comp"] + (":center" if obj["case"]["params"].get("center") else "") + (":moved" if obj["amp"] else ":same-positions"))
             rep = replay_obj("lines", [impl.lines[k] for k in obj["i"]], {"model_lines": [mod.lines[m]]})
             if a is None or a0 is None:
                 run.violation("value:coordNum:pairlist-error", "coordNum with a pair list fails: %s / %s" % (iout[obj["i"][0]][:80], iout[i][:80]), rep)
